@@ -26,11 +26,11 @@ NAV = [(1, 'B', 'A', None), (1, 'A', 'B', None), (2, 'C', 'A', None), (2, 'A', '
 RELATE = [(1, 'B', 'A', None, None), (1, 'A', 'B', None, None), (2, 'C', 'A', None, None),
           (3, 'A', 'A', 'precedes', None), (3, 'A', 'A', 'succeeds', None),
           (4, 'A', 'B', None, 'L'), (4, 'B', 'A', None, 'L')]
-FUNCS = {'f_int': (INT, [('n', INT), ('s', STR)]), 'f_str': (STR, [('s', STR)]), 'f_bool': (BOOL, []),
-         'f_void': (VOID, [('n', INT)]), 'f_three': (INT, [('a', INT), ('b', BOOL), ('c', STR)])}
-BRIDGES = {'b_int': (INT, [('n', INT)]), 'b_void': (VOID, [('s', STR), ('n', INT)]), 'b_str': (STR, [])}
-CLASS_OPS = {'cop_int': (INT, [('n', INT)]), 'cop_void': (VOID, [])}
-INST_OPS = {'iop_int': (INT, [('n', INT), ('s', STR)]), 'iop_void': (VOID, []), 'iop_bool': (BOOL, [('b', BOOL)])}
+FUNCS = {'f_int': (INT, [('num', INT), ('txt', STR)]), 'f_str': (STR, [('txt', STR)]), 'f_bool': (BOOL, []),
+         'f_void': (VOID, [('num', INT)]), 'f_three': (INT, [('first', INT), ('flag', BOOL), ('third', STR)])}
+BRIDGES = {'b_int': (INT, [('num', INT)]), 'b_void': (VOID, [('txt', STR), ('num', INT)]), 'b_str': (STR, [])}
+CLASS_OPS = {'cop_int': (INT, [('num', INT)]), 'cop_void': (VOID, [])}
+INST_OPS = {'iop_int': (INT, [('num', INT), ('txt', STR)]), 'iop_void': (VOID, []), 'iop_bool': (BOOL, [('flag', BOOL)])}
 HOME_PARAMS = [('p_int', INT), ('p_str', STR), ('p_bool', BOOL)]
 ENUMERATORS = ['Red', 'Green', 'Blue']
 CONSTS = [('C_INT', INT, '42'), ('C_STR', STR, 'hello'), ('C_BOOL', BOOL, 'true')]
